@@ -415,6 +415,8 @@ def main(run):
                        "distinct = distinct outputs")
     run.notes["stages"] = stages
     run.notes["cli_pairs"] = ncli
+    import t06_text   # extra stage (extension T06): a whole run of the binary (console text / output files) against T06_run.run_console / run_files
+    t06_text.run_stage(run, n=(25 if run.tier == "quick" else 300))
     return run.finish(info)
 
 
